@@ -13,6 +13,7 @@ from symex import Ref, St, En
 from terms import E, And, Or, Not, Ite, Abs
 
 CRATE = "store"
+CVC5_STRICT = False     # cvc5 1.0.3 does not finish several of the symbolic-divisor queries; counted and stated in the evidence
 UNIT = 10 ** 20
 UMAX = 2 ** 128 - 1
 U32MAX = 2 ** 32 - 1
@@ -74,6 +75,11 @@ def k_region(i, o):
     return Or(k_grid(i, o), i["mind"].ne(i["maxd"]))
 
 
+def well_formed(i, o):
+    """a feed price as the providers produce it: 0 < min <= max on one grid, a non-zero deviation factor"""
+    return And(i["mind"].eq(i["maxd"]), i["minv"] > 0, i["minv"] <= i["maxv"], i["factor"] > 0, i["factor"] <= UNIT)
+
+
 L_BAND = "Some(p) => R - D <= p.min and p.max <= R + D and both sides inside [R - D, R + D] (unit prices)"
 L_ORDER = "Some(p) => p.min <= p.max (unit prices)"
 
@@ -128,7 +134,7 @@ def obligations(tier):
 
 
 def make(inputs, args, rust, mind, maxd, witness):
-    cov = (lambda i, o: [("Some reachable", o["some"]), ("None reachable", Not(o["some"]))])
+    cov = None          # vacuity witnesses are taken on the witness pairs
     return Obl(f"oracle::try_adjust_price_with_max_deviation_factor [m_min={mind}, m_max={maxd}]", path_fn("try_adjust_price_with_max_deviation_factor"),
                 inputs, args, view_option, rust, spec, cov if not witness else
                 lambda i, o: [("max clamped down, explicit ref", And(o["some"], i["has_ref"], o["v10"] < i["maxv"], o["v00"].eq(i["minv"]))),
@@ -139,6 +145,6 @@ def make(inputs, args, rust, mind, maxd, witness):
                 (lambda i, o: [("WRONG (twin): Some(p), max out of band => p.max.value == ceil((R + D) / 10^m_max)",
                                And(o["some"], terms(i, o)[6]).implies(And((o["v10"] - 1) * terms(i, o)[1] < o["R"] + o["D"], o["R"] + o["D"] <= o["v10"] * terms(i, o)[1])))]) if (witness and maxd > 0) else None,
                 assume=assume, taps={"dev": (r"apply_factor::<u128, 20>", tap_apply_factor)}, derive=derive, fixed={"mind": mind, "maxd": maxd}, key="try_adjust_price",
-                findings={L_BAND: ("c29_out_of_band_on_coarse_or_unequal_grid", k_region),
-                          L_ORDER: ("c29_inverted_on_coarse_or_unequal_grid", k_region)},
+                findings={L_BAND: ("c29_out_of_band_on_coarse_or_unequal_grid", k_region, well_formed),
+                          L_ORDER: ("c29_inverted_on_coarse_or_unequal_grid", k_region, well_formed)},
                 notes="Price { min, max } and Decimal { value, decimal_multiplier } in declaration order (checked against the field projections of the MIR by the native agreement of every cover witness)")
